@@ -114,6 +114,16 @@ def exec_WQ(t):
         elif route == 'config':
             x.config.op_out = out
             z = {'add': lambda: x + y, 'sub': lambda: x - y, 'mul': lambda: x * y}[op]()
+        elif route in ('outlike', 'config_like'):
+            # the register is a template: the result is a new object like it (D65: this route calculated in floats)
+            if route == 'outlike':
+                z = {'add': fxpmath.add, 'sub': fxpmath.sub, 'mul': fxpmath.mul}[op](x, y, out_like=out)
+            else:
+                x.config.op_out_like = out
+                z = {'add': lambda: x + y, 'sub': lambda: x - y, 'mul': lambda: x * y}[op]()
+            if z is out or (z.signed, z.n_word, z.n_frac, z.config.overflow) != (out.signed, out.n_word, out.n_frac, 'wrap'):
+                return ['NOTLIKE']
+            out = z
         elif route in ('viaacc', 'viaacc_call', 'viaacc_like'):
             # the exact (optimally sized, possibly very wide) result is formed first and then moved into the register: an accumulator
             # followed by a store, the conversion routes of C10 at the end of an arithmetic chain
@@ -182,7 +192,7 @@ def generate(tier, rng):
     for _ in range(1500 if tier == 'quick' else 40000):
         signed = rng.random() < 0.5
         n = rng.choice(G.WIDE_WORDS + [64, 64, 128])
-        f = rng.choice([0, 0, 0, 1, 3, n // 2])
+        f = rng.choice([0, 0, 0, 1, 3, n // 2, -1, -3, -8])     # (negative: the integers lose bits and must be divided exactly, D63)
         r = rng.choice(ROUNDS)
         k = rng.choice([1, 1, 1, 2, 3, 4, 6])   # mostly scalars (the quantifier); small arrays of wide integers as well (C11's D13 is repaired)
         vals = [_big_ints(rng, n, f) for _ in range(k)]
@@ -259,7 +269,7 @@ def gen_WQ(tier, rng):
             sr = True if (sx or sy or op == 'sub') else rng.random() < 0.5
             fr = rng.choice([fe, max(0, fe - rng.randint(1, fe)) if fe else 0, rng.randint(0, fe) if fe else 0, fx, fy, 0])
             nr = rng.choice([8, 16, 24, 32, 40, 52, rng.randint(max(2, min(fr, 52)), 52)])
-            route = rng.choice(['out', 'out', 'npout', 'config', 'viaacc', 'viaacc_call', 'viaacc_like'])
+            route = rng.choice(['out', 'out', 'npout', 'config', 'viaacc', 'viaacc_call', 'viaacc_like', 'outlike', 'config_like'])
         if ie + fr > 61 or not (-8 <= fr <= nr + 8):
             continue
         lox, hix = lims(sx, nx); loy, hiy = lims(sy, ny)
@@ -299,7 +309,7 @@ def gen_WQ_aligned(tier, rng):
         if rng.random() < 0.5:
             sx, nx, fx, a, sy, ny, fy, b = sy, ny, fy, b, sx, nx, fx, a
         yield 'WQ %s %d %d %s %d %d %s %d %d %s %d %d %s %s' % ('s' if sx else 'u', nx, fx, 's' if sy else 'u', ny, fy, op, a, b,
-                                                                 's' if sr else 'u', nr, fr, rng.choice(ROUNDS), rng.choice(['out', 'npout', 'config']))
+                                                                 's' if sr else 'u', nr, fr, rng.choice(ROUNDS), rng.choice(['out', 'npout', 'config', 'outlike', 'config_like']))
 
 
 def nontrivial(full_line, model):
